@@ -91,6 +91,33 @@ structure MDG where
 def upwindNeu (nc : Nat) (D : Nat → Nat → Rat) (neu : Nat → Bool) : Nat → Nat → Rat :=
   fun f f' => if f = f' ∧ neu f = true then colSum nc D f else 0
 
+/-- diagonal matrix -/
+def diagMat (d : Nat → Rat) : Nat → Nat → Rat := fun f f' => if f = f' then d f else 0
+
+/-- `Tpfa.discretize` (numerics/fv/tpfa.py), boundary flux matrix as coded:
+    `is_neu = bnd.is_neu | bnd.is_internal`; `t_b[is_dir] = -t[is_dir]`; `t_b[is_neu] = 1`;
+    `bound_flux = coo((t_b * bndr_sgn, (bndr_ind, bndr_ind)))` where `bndr_ind` are all boundary faces
+    (domain boundary, fracture and tip faces) and `bndr_sgn` is the sign of the single incident cell,
+    i.e. the column sum of the divergence.  `neu` is the effective flag (`is_neu | is_internal`),
+    `tdir` the transmissibility of the Dirichlet faces. -/
+def tpfaBoundFlux (nc : Nat) (D : Nat → Nat → Rat) (bnd neu : Nat → Bool) (tdir : Nat → Rat) :
+    Nat → Nat → Rat :=
+  diagMat (fun f => if bnd f = true then (if neu f = true then 1 else -(tdir f)) * colSum nc D f else 0)
+
+/-- `AdTpfaFlux.diffusive_flux` (models/constitutive_laws.py), the matrix that multiplies
+    `boundary values + mortar_to_primary_int @ interface flux`:
+      `bnd_sgn` = sign of the incident cell on domain-boundary and fracture faces, 0 elsewhere;
+      `neu_bnd = (external_neu_filter + internal_boundary_filter) * bnd_sgn`;
+      `dir_bnd = external_dir_filter * (-bnd_sgn * t_f)`;  `t_bnd = neu_bnd + dir_bnd`.
+    `withInternal = false` is the code as shipped (`neu_bnd = external_neu_filter * bnd_sgn`, finding
+    C04/FouriersLawAd: the interface flux never reaches the fracture faces); the property needs `true`. -/
+def adTpfaBound (withInternal : Bool) (nc : Nat) (D : Nat → Nat → Rat)
+    (extNeu extDir intb : Nat → Bool) (tf : Nat → Rat) : Nat → Nat → Rat :=
+  diagMat (fun f =>
+    let bsgn : Rat := if extNeu f = true ∨ extDir f = true ∨ intb f = true then colSum nc D f else 0
+    ((if extNeu f = true then 1 else 0) + (if withInternal = true ∧ intb f = true then 1 else 0)) * bsgn
+      + (if extDir f = true then 1 else 0) * (-bsgn * tf f))
+
 /-- flux that the coupling adds on the faces of its primary (which has `nfp` faces):
     `B @ (mortar_to_primary_int @ λ)` -/
 def Coupling.primFlux (cp : Coupling) (nfp : Nat) : Array Rat :=
@@ -188,6 +215,25 @@ def UpwindCoded (g : MDG) (cp : Coupling) (neu : Nat → Bool) : Prop :=
   cp.B = upwindNeu (g.sd cp.prim).nc (g.sd cp.prim).D neu ∧
   ∀ f, f < (g.sd cp.prim).nf → Target cp f →
     colSum (g.sd cp.prim).nc (g.sd cp.prim).D f ≠ 0 ∧ neu f = true
+
+/-- the coupling enters through the Tpfa `bound_flux` as coded, and its projection hits only boundary
+    faces of the primary that are (effectively) Neumann faces -/
+def TpfaCoded (g : MDG) (cp : Coupling) (bnd neu : Nat → Bool) (tdir : Nat → Rat) : Prop :=
+  cp.B = tpfaBoundFlux (g.sd cp.prim).nc (g.sd cp.prim).D bnd neu tdir ∧
+  ∀ f, f < (g.sd cp.prim).nf → Target cp f →
+    colSum (g.sd cp.prim).nc (g.sd cp.prim).D f ≠ 0 ∧ bnd f = true ∧ neu f = true
+
+/-- the coupling enters through the (repaired) differentiable-Tpfa boundary matrix, and its
+    projection hits only internal boundary (fracture) faces -/
+def AdTpfaCoded (g : MDG) (cp : Coupling) (extNeu extDir intb : Nat → Bool) (tf : Nat → Rat) : Prop :=
+  cp.B = adTpfaBound true (g.sd cp.prim).nc (g.sd cp.prim).D extNeu extDir intb tf ∧
+  ∀ f, f < (g.sd cp.prim).nf → Target cp f →
+    colSum (g.sd cp.prim).nc (g.sd cp.prim).D f ≠ 0 ∧ intb f = true ∧ extNeu f = false ∧ extDir f = false
+
+/-- the boundary matrix of the coupling is one of the three coded ones -/
+def CodedBoundary (g : MDG) (cp : Coupling) : Prop :=
+  (∃ neu, UpwindCoded g cp neu) ∨ (∃ bnd neu tdir, TpfaCoded g cp bnd neu tdir) ∨
+  (∃ extNeu extDir intb tf, AdTpfaCoded g cp extNeu extDir intb tf)
 
 /-! ### decidable versions of the hypotheses (evaluated by the driver on the real matrices) -/
 
